@@ -326,7 +326,6 @@ StylesheetHandler::startElement(
                 case StylesheetConstructionContext::ELEMNAME_MESSAGE:
                 case StylesheetConstructionContext::ELEMNAME_NUMBER:
                 case StylesheetConstructionContext::ELEMNAME_VALUE_OF:
-                case StylesheetConstructionContext::ELEMNAME_WITH_PARAM:
                 case StylesheetConstructionContext::ELEMNAME_PI:
                     elem = m_constructionContext.createElement(
                                                 xslToken,
@@ -334,6 +333,38 @@ StylesheetHandler::startElement(
                                                 atts,
                                                 locator);
                     assert(elem != 0);
+                    break;
+
+                case StylesheetConstructionContext::ELEMNAME_WITH_PARAM:
+                    {
+                        // xsl:with-param is only allowed as a child of
+                        // xsl:call-template and xsl:apply-templates...
+                        const int   parentToken =
+                            m_elemStack.empty() == true ?
+                                int(StylesheetConstructionContext::ELEMNAME_UNDEFINED) :
+                                m_elemStack.back()->getXSLToken();
+
+                        if (parentToken != StylesheetConstructionContext::ELEMNAME_CALL_TEMPLATE &&
+                            parentToken != StylesheetConstructionContext::ELEMNAME_APPLY_TEMPLATES &&
+                            parentToken != StylesheetConstructionContext::ELEMNAME_FORWARD_COMPATIBLE)
+                        {
+                            const GetCachedString   theGuard(m_constructionContext);
+
+                            error(
+                                XalanMessageLoader::getMessage(
+                                    theGuard.get(),
+                                    XalanMessages::IsNotAllowedInThisPosition_1Param,
+                                    Constants::ELEMNAME_WITHPARAM_WITH_PREFIX_STRING),
+                                locator);
+                        }
+
+                        elem = m_constructionContext.createElement(
+                                                    xslToken,
+                                                    m_stylesheet,
+                                                    atts,
+                                                    locator);
+                        assert(elem != 0);
+                    }
                     break;
           
                 case StylesheetConstructionContext::ELEMNAME_PARAM:
